@@ -255,6 +255,29 @@ class BlockSplit(Contract):
             else:
                 yield (tuple(coords),), dict(spacing=rng.choice([1.0, 2.5, (3.0, 1.5), 50.0]), adjust=rng.choice(["spacing", "region"]), region=region)
 
+        # easting and northing of DIFFERENT dtypes (integer / float32 next to float64) and UTM-sized coordinates with
+        # blocks of about a metre (points 0.1 - 0.4 off the block edges: nothing coarser than float64 survives)
+        for k in range(24 if tier == "thorough" else 8):
+            n = rng.randint(5, 40)
+            kind = ["int_east", "int_north", "f32_east", "f32_north", "utm", "utm"][k % 6]
+            spacing = rng.choice([1.0, 0.5, 2.5])
+            if kind.startswith("int"):
+                e, nn_ = nrng.uniform(0, 20, n), nrng.uniform(0, 20, n)
+                if kind == "int_east":
+                    e = np.round(e).astype(rng.choice(["int64", "int32"]))
+                else:
+                    nn_ = np.round(nn_).astype(rng.choice(["int64", "int32"]))
+            else:
+                e0, n0 = 500000.0, 7200000.0
+                e = e0 + spacing * nrng.randint(0, 30, n) + nrng.uniform(0.1, 0.4, n) * spacing * nrng.choice([-1, 1], n)
+                nn_ = n0 + spacing * nrng.randint(0, 30, n) + nrng.uniform(0.1, 0.4, n) * spacing * nrng.choice([-1, 1], n)
+                if kind == "f32_east":
+                    e = (e - e0).astype("float32")
+                elif kind == "f32_north":
+                    nn_ = (nn_ - n0).astype("float32")
+            region = None if rng.random() < 0.5 else (float(np.floor(e.min())), float(np.floor(e.min())) + 40 * spacing, float(np.floor(nn_.min())), float(np.floor(nn_.min())) + 40 * spacing)
+            yield ((e, nn_),), dict(spacing=spacing, region=region, adjust=rng.choice(["spacing", "region"]))
+
     def ensures(self, a, r):
         ok = isinstance(r, tuple) and len(r) == 2 and isinstance(r[0], tuple) and len(r[0]) == 2 and isinstance(r[1], SymArr)
         out = {"returns_block_coordinates_and_labels": ok}
@@ -343,10 +366,16 @@ def _absv(x):
 
 
 def _scale2(e, n, p):
+    """Scale of the round-off in a difference of two squared distances (concrete evaluation): the distances themselves
+    are of the size d of the data extent, their operands of the size v of the coordinates, so the error is about
+    eps * v * d - NOT v * v (at UTM-sized coordinates that would forgive whole blocks)."""
     if is_sym(e.at(0)):
         return 1.0
     v = max(abs(float(e.at(p))), abs(float(n.at(p))), 1.0)
-    return v * v
+    es = [float(e.at(i)) for i in range(int(e.shape[0]))]
+    ns = [float(n.at(i)) for i in range(int(n.shape[0]))]
+    d = max(max(es) - min(es), max(ns) - min(ns), 1.0)
+    return 1e-5 * v * d  # times Tol.atol = 1e-9: about 100 eps * v * d
 
 
 def _margin(x, cx, hx, y, cy, hy):
